@@ -26,10 +26,11 @@ MATCHERS = {}  # no open finding (Db.Batch / tx-complete listeners: fixed in cb7
 
 RULE = ("(a) registration matrix: each of AddEntityEventListener / AddEntityEventListenerF / AddListener / "
         "AddEntityIdListener x 12 change-type lists (single sync / async kinds, all sync, all async, sync+async of one "
-        "kind, a duplicated kind, mixed) x registered on the parent or on the child store, next to typed and untyped "
+        "kind, a duplicated kind, mixed) x registered on the parent, the first or the second child store, next to typed and untyped "
         "constraints, against a five-transaction history (multi-operation creates, updates through both stores, a "
         "rollback after events were queued, a Batch, deletes through both stores and DeleteWhere); (b) every "
-        "one-operation body (16 operations incl. child data created over an existing plain parent entity) x every "
+        "one-operation body (25 operations through the parent and both child stores, incl. child data created over an "
+        "existing parent entity and an entity with data in both child stores) x every "
         "failure kind (incl. index-stage vetoes of custom boltz.Constraint registrations on either store and vetoes "
         "carrying a RecordNotFoundError) x Update / Batch; (c) sampled faulty bodies of 2-5 operations; "
         "(d) random histories of 1-4 transactions with up to 5 registrations per store (listeners with 1-3 random "
